@@ -975,6 +975,25 @@ func ruleParResize(c *Ctx, r *R) {
 						return true
 					})
 				}
+				// the initialiser parsed in place — X.Append(p.Expression(0)) — has no name that
+				// assignResize could have been given
+				inline := false
+				for _, st2 := range blk.List[i+1:] {
+					ast.Inspect(st2, func(m ast.Node) bool {
+						ac, ok := m.(*ast.CallExpr)
+						if !ok || c.CalleeName(ac) != "token.Append" || len(ac.Args) != 1 {
+							return true
+						}
+						if pc, ok := unparen(ac.Args[0]).(*ast.CallExpr); ok && (c.CalleeName(pc) == "parser.Expression" || c.CalleeName(pc) == "parser.doExpression") {
+							inline = true
+						}
+						return true
+					})
+				}
+				if inline && rhs == "" {
+					r.fail(name+" `=` #"+fmt.Sprint(len(r.seen)), c.Pos(call), name+": after `=` the initialiser is parsed and attached to the declaration in one expression, without assignResize: `var a, b T = f()` requests one result but stores two (the second store pops a local slot)")
+					continue
+				}
 				if rhs == "" {
 					continue
 				}
